@@ -31,10 +31,12 @@ func c04Deliver(cfg Config, nMsgs, nSubs, nacks int) {
 	originals := make([]*message.Message, nMsgs)
 	for i := 0; i < nMsgs; i++ {
 		originals[i] = newMsg(i)
-		vrt.Assert(g.Publish("t", originals[i]) == nil, "publish succeeds")
+		batch := []*message.Message{originals[i]} // the publisher's own argument slice
+		vrt.Assert(g.Publish("t", batch...) == nil, "publish succeeds")
+		vrt.Assert(batch[0] == originals[i], "Publish leaves the caller's argument slice alone")
 		// what was published is what gets delivered: the publisher touching its own object after Publish
 		// returned (e.g. reusing it) must not reach pending deliveries or redeliveries
-		originals[i].Metadata.Set("k2", "added-by-publisher-after-publish")
+		batch[0].Metadata.Set("k2", "added-by-publisher-after-publish")
 	}
 	for i := 0; i < nSubs; i++ {
 		<-done
